@@ -91,6 +91,14 @@ TABLE = {
             "objects; every written file is projected (decimals of a probe number, element multiplicity, planning problems, "
             "date-stripped content id, read-back) and validated by TLC.",
             "TLC, projection of files (lxml / protobuf parse), SHA-1 content identity with the date removed"),
+    "C04": ("Occupancy.tla / MC_Occupancy.tla / Trace_Occupancy.tla",
+            "The time-step dispatch (Source: initial / trajectory / stored set occupancy / static / environment / none), the "
+            "placed shape on lattice poses with quarter-turn orientations, point-mass headings, the enclosure obligations for "
+            "uncertain positions / orientations and the scenario-level queries are TLA+ operators written from the statement; "
+            "TLC checks totality and consistency of Source, the horizon law and that scenario-level answers are the images of "
+            "per-obstacle answers. All obstacle descriptors x t in 0..7 and small scenarios x filters are executed on real "
+            "objects and TLC validates occupancies (exact vertices), states, enclosure flags and query results.",
+            "TLC, exact lattice geometry, shapely `covers` with 1e-9 buffer for the enclosure flags"),
 }
 
 PENDING_REASON = "check not built yet in this round (specification module planned in DESIGN.md section 4); not claimed"
